@@ -130,6 +130,23 @@ def match_event(th, hy, vw, want_oracle=True, want_template=False):
     return ev
 
 
+def kappa_event(th, hy, vw, want_template):
+    """efficiency factor of a plain deflagration vs the kinetic-energy integral of the profile of the SAME matching"""
+    ev = {"e": "Kappa", "vw": vt(vw), "out": "ok"}
+    try:
+        vp, vm, Tp, Tm = map(float, hy.findMatching(vw))
+        sh = eos.shock_oracle(th, vw, vp, Tp)
+        ko = eos.kappa_oracle(th, vw, vp, vm, Tp, Tm, hy.template.alN, sh)
+        kap = float(hy.efficiencyFactor(vw))
+        ev["dKappaRel"] = quant.reldigits(kap, ko, floor=1e-12) if sh is not None else -1
+        ev["kappa"] = quant.ticks(kap, 1e-9)
+        ev["dKappaTRel"] = quant.reldigits(kap, float(hy.template.efficiencyFactor(vw)), floor=1e-12) if want_template else 16
+    except Exception as ex:
+        ev["out"] = type(ex).__name__
+        ev["msg"] = str(ex)[:160]
+    return ev
+
+
 def run_trace(cell):
     """one trace for one (EOS, Tn) cell"""
     import WallGo
@@ -153,6 +170,11 @@ def run_trace(cell):
         vws = velocities(hy, cell.get("nv", 12), rng)
         for vw in vws:
             evs.append(match_event(th, hy, vw, cell.get("oracle", True), cell.get("template", False)))
+        if cell.get("oracle", True):
+            cb = math.sqrt(hy.template.cb2)
+            for vw in (0.003, 0.006, 0.03, 0.1, 0.25):
+                if 1.2 * hy.vMin <= vw <= 0.8 * min(cb, hy.vJ):
+                    evs.append(kappa_event(th, hy, vw, cell.get("template", False)))
         if cell.get("lte", True):
             lte = {"e": "LTE", "out": "ok"}
             try:
